@@ -217,7 +217,13 @@ def summarize(F, fn):
                 else:
                     s.notes.append("peek with non-constant depth")
             elif k in (POPS + "current", POPS + "current_mut", POPS + "get_current", POPS + "get_current_mut"):
-                s.uses_current = True
+                # the top population is read / edited: that needs a population put there by somebody else - unless this very
+                # function has pushed one on every path leading here and pops none (`push(Vec::new()); current_mut().extend(..)`)
+                pushes_ = [b2 for b2, t2 in body.calls() if callee_key(t2["f"]) == POPS + "push"]
+                pops_ = [b2 for b2, t2 in body.calls() if callee_key(t2["f"]) in (POPS + "pop", POPS + "try_pop")]
+                own = (not pops_) and any(must_pass(body, 0, lambda b, x=pb: b == x, goal=lambda b, u=bb: b == u) is None for pb in pushes_)
+                if not own:
+                    s.uses_current = True
             elif k in ("mahf::problems::individual::Individual::objective",) or any(x.endswith("as mahf::population::BestIndividual>::best_individual") for x in ks):
                 s.reads_objective = True
             elif k == "mahf::problems::individual::Individual::solution_mut" or any(x.endswith("as mahf::population::AsSolutionsMut>::as_solutions_mut") for x in ks):
